@@ -31,7 +31,7 @@ ASSUMPTIONS = [
 
 @st.composite
 def trunc_case(draw):
-    o = gens.opts(max_fields=5, max_depth=2, signed_flags=False)  # signed flags: known finding KF-FLAG, not this property's subject
+    o = gens.opts(max_fields=5, max_depth=2, signed_flags=False, null_structs=True)  # signed flags: known finding KF-FLAG, not this property's subject
     return draw(gens.input_case(o, tail=False))
 
 
@@ -67,8 +67,15 @@ def run_case(case, ctx):
         n_parses += 1
         # the documented call form T(<bytes>) must not treat a truncated buffer as anything but input to parse
         rb = lib(T, cut)
-        if isinstance(rb, Err) != isinstance(r, Err) or (not isinstance(rb, Err) and libside.cplain(rb) != libside.cplain(r)):
+        if isinstance(rb, Err) != isinstance(r, Err) or (not isinstance(rb, Err) and libside.cplain(rb) != libside.cplain(r)) or (isinstance(rb, Err) and rb.type != r.type):
             raise Violation("bytes-call-form-differs", f"cut at {k}: T(bytes) gives {rb if isinstance(rb, Err) else libside.cplain(rb)!r}, T(stream) gives {r if isinstance(r, Err) else libside.cplain(r)!r}: {desc({'cut': k})}")
+        if end <= 24 or k % 5 == 0 or k >= last - 1:
+            for form, call in (("T.read(stream)", lambda: T.read(io.BytesIO(cut))), ("T.read(bytes)", lambda: T.read(cut)), ("T.reads(bytes)", lambda: T.reads(cut)),
+                               ("T(bytearray)", lambda: T(bytearray(cut))), ("T(memoryview)", lambda: T(memoryview(cut)))):
+                rf = lib(call)
+                n_parses += 1
+                if isinstance(rf, Err) != isinstance(r, Err) or (isinstance(rf, Err) and rf.type != r.type) or (not isinstance(rf, Err) and libside.cplain(rf) != libside.cplain(r)):
+                    raise Violation("bytes-call-form-differs", f"cut at {k}: {form} gives {rf if isinstance(rf, Err) else libside.cplain(rf)!r}, T(stream) gives {r if isinstance(r, Err) else libside.cplain(r)!r}: {desc({'cut': k, 'form': form})}")
         if eof_def:
             ref2 = common.reference(case, cut)
             if ref2["status"] == "short":
@@ -131,6 +138,34 @@ def run_case(case, ctx):
                         raise Violation("fabricated-value", f"{what}: returned {libside.cplain(r)!r}, full input gives {full!r}: {desc(what)}")
                     ctx.count(f"fault:{kind}:padding-only:same-value")
 
+    # ---- the types of the fixed-size top-level members, called on their own with a shortened span
+    lay = sem.layout(root)
+    for i, f in enumerate(root["fields"]):
+        if f.get("bits") or f.get("name") is None or lay["offs"][i] is None:
+            continue
+        fsz = sem.size(f["t"])
+        if not fsz or lay["offs"][i] + fsz > len(data):
+            continue
+        F = T.__fields__[i].type
+        off = lay["offs"][i]
+        span = data[off : off + fsz]
+        whole = lib(F, span)
+        if isinstance(whole, Err):
+            continue
+        for j in range(fsz):
+            rj = lib(F, span[:j])
+            n_parses += 1
+            need = any(mask[off + x] for x in range(j, fsz))
+            what = {"member_type": F.__name__, "span": span.hex(), "cut": j}
+            if isinstance(rj, Err):
+                if rj.type != "EOFError":
+                    raise Violation("wrong-exception-type", f"{what}: premature end raised {rj} instead of EOFError: {desc(what)}", rj.where, {"exc": rj.type})
+            elif need:
+                raise Violation("value-from-truncated-input", f"{what}: {F.__name__}(<{j} of {fsz} bytes>) returned {libside.cplain(rj)!r}: {desc(what)}")
+            elif libside.cplain(rj) != libside.cplain(whole):
+                raise Violation("fabricated-value", f"{what}: returned {libside.cplain(rj)!r}, the complete span gives {libside.cplain(whole)!r}: {desc(what)}")
+        ctx.count("member-type-called-directly")
+
     # ---- residue
     again = lib(T, io.BytesIO(data))
     if isinstance(again, Err) or libside.cplain(again) != full:
@@ -146,6 +181,73 @@ def run_case(case, ctx):
         ctx.sample(common.describe(case, {"consumed": end, "cuts": n_parses, "faults": n_faults, "last_data_byte": last - 1}), "eof" if eof_def else "std")
 
 
+def _run_dyn(case, ctx):
+    """Dynamically sized unions (members read straight from the stream, then once more as the backing buffer): packed
+    templates, so every byte a complete parse touches carries data."""
+    from pbt.drive import import_repo
+
+    m = import_repo()
+    cs = m.cstruct(endian=case["endian"])
+    r = lib(cs.load, case["text"], compiled=case["compiled"])
+    if isinstance(r, Err):
+        raise Violation("definition-rejected", f"{case['text']}: {r}", r.where)
+    T = cs.Root
+    data = bytes.fromhex(case["data"])
+    dry = FaultyStream(data)
+    first = lib(T, dry)
+    if isinstance(first, Err):
+        ctx.count("dynunion:baseline-raised:" + first.type)
+        return
+    full = libside.cplain(first)
+    calls = list(dry.calls)
+    touched = max([pos + got for pos, req, got in calls] or [0])
+    what0 = {"definition": case["text"], "data": case["data"], "compiled": case["compiled"]}
+    n = 0
+    for k in range(touched):
+        cut = data[:k]
+        for form, call in (("T(stream)", lambda: T(io.BytesIO(cut))), ("T(bytes)", lambda: T(cut))):
+            rk = lib(call)
+            n += 1
+            if not isinstance(rk, Err):
+                raise Violation("value-from-truncated-input", f"cut at {k} of {touched} touched bytes, {form}: returned {libside.cplain(rk)!r}; full input gives {full!r}: {dict(what0, cut=k)}")
+            if rk.type != "EOFError":
+                raise Violation("wrong-exception-type", f"cut at {k}, {form}: premature end raised {rk} instead of EOFError: {dict(what0, cut=k)}", rk.where, {"exc": rk.type})
+    for j, (pos, req, got) in enumerate(calls):
+        if not got:
+            continue
+        for kind, keep in (("short", got // 2), ("empty", 0), ("raise", 0)):
+            fs = FaultyStream(data, fault_at=j, kind=kind, keep=keep)
+            rf = lib(T, fs)
+            n += 1
+            what = dict(what0, fault=kind, read_call=j, at=pos, requested=req)
+            if not isinstance(rf, Err):
+                raise Violation("value-despite-stream-error" if kind == "raise" else "value-from-short-read", f"{what}: returned {libside.cplain(rf)!r} (full: {full!r})")
+            if kind != "raise" and rf.type != "EOFError":
+                raise Violation("wrong-exception-type", f"{what}: premature end raised {rf} instead of EOFError", rf.where, {"exc": rf.type})
+    again = lib(T, io.BytesIO(data))
+    if isinstance(again, Err) or libside.cplain(again) != full:
+        raise Violation("residue", f"after {n} failed parses the complete input parses to {again!r}, first parse gave {full!r}: {what0}")
+    ctx.evaluations += n
+    ctx.count("dynunion:checked")
+    if touched >= 3:
+        ctx.mark_nontrivial(case)
+        ctx.sample(dict(what0, touched=touched, read_calls=len(calls)), "dynunion")
+
+
+_run_static = run_case
+
+
+def run_case(case, ctx):  # noqa: F811 - dispatch on the case kind
+    if case.get("dynunion"):
+        return _run_dyn(case, ctx)
+    return _run_static(case, ctx)
+
+
 def stages(tier):
+    from props.c09 import dynunion_case
+
     q = tier == "quick"
-    return [HypStage("cuts+faults", trunc_case, examples=600 if q else 4000, shards=10 if q else 16)]
+    return [
+        HypStage("cuts+faults", trunc_case, examples=600 if q else 4000, shards=10 if q else 16),
+        HypStage("dynamic-unions", dynunion_case, examples=300 if q else 3000, shards=2 if q else 4),
+    ]
